@@ -68,19 +68,24 @@ def level_lengths(n, L, mode, J):
 
 def sizes_1d(L, tier):
     hi = min(2 * L + 4, 44) if tier == 'quick' else 2 * L + 4
-    return list(range(2, hi + 1))
+    out = list(range(2, hi + 1))
+    # a few states far beyond the regime boundaries (complete basis as well): code that switches behaviour with size
+    big = [64, 101, 128] if tier == 'quick' else [64, 101, 128, 255, 256, 300]
+    if L <= 12:
+        out += [n for n in big if n > hi]
+    return out
 
 
 def sizes_2d(L, tier):
     """Full grid for short filters, regime-boundary cross for long ones (DESIGN 2.3)."""
     if tier == 'quick':
         if L <= 8:
-            return [(h, w) for h in range(2, 9) for w in range(2, 9)]
+            return [(h, w) for h in range(2, 9) for w in range(2, 9)] + ([(32, 32), (33, 20)] if L in (4, 6) else [])
         hs = sorted(set(list(range(2, 6)) + [x for x in range(L - 2, L + 4) if 2 <= x <= 24]))
         ws = [2, 3]
     else:
         if L <= 12:
-            return [(h, w) for h in range(2, 15) for w in range(2, 15)]
+            return [(h, w) for h in range(2, 15) for w in range(2, 15)] + ([(32, 32), (33, 20), (20, 33), (48, 40)] if L <= 8 else [])
         if L <= 20:
             hs = list(range(2, 2 * L + 5))
             ws = [2, 3, 5]
